@@ -9,6 +9,7 @@ import (
 	"errors"
 	"fmt"
 	"io"
+	"math"
 	"os"
 	"sort"
 	"strconv"
@@ -450,6 +451,14 @@ func builtinRepeatFunc(arg Object, count int) (ret Object, err error) {
 			"2nd",
 			"non-negative integer",
 			"negative integer",
+		)
+	}
+
+	if n, ok := arg.(LengthGetter); ok && count > 0 && n.Len() > math.MaxInt32/count {
+		return nil, NewArgumentTypeError(
+			"2nd",
+			"integer giving a result of at most "+strconv.Itoa(math.MaxInt32)+" items",
+			"too large integer",
 		)
 	}
 
